@@ -96,7 +96,7 @@ namespace
                 Scal sc = s->scal(static_cast<std::size_t>(x.num("ns", 16)));
                 std::size_t mn, ma, mal;
                 s->maxes(mn, ma, mal);
-                e.u("ns", s->node_size()).u("hdr", s->header()).u("link", s->link_bytes());
+                e.u("ns", s->node_size()).u("hdr", s->header()).u("link", s->link_bytes()).u("pools", s->pools());
                 e.i("cap", sc.cap).ic("ncap", sc.ncap).i("fn", sc.fn);
                 e.uc("mxn", mn).uc("mxa", ma).uc("mxal", mal);
                 if (s->has_iterations())
@@ -111,7 +111,7 @@ namespace
             }
             else
             {
-                e.u("ns", 0).u("hdr", 0).u("link", 0).i("cap", -1).ic("ncap", -1).i("fn", -1);
+                e.u("ns", 0).u("hdr", 0).u("link", 0).u("pools", 0).i("cap", -1).ic("ncap", -1).i("fn", -1);
                 e.uc("mxn", 0).uc("mxa", 0).uc("mxal", 0).raw("caps", "[]");
             }
             return s;
